@@ -472,6 +472,72 @@ func c13Hs(c *h.Ctx) {
 		c.Case("hs/upgrade/"+bucket, in, true)
 	}
 
+	// 7b. ws URIs: parseURL / hostPortNoPort against the model, and what Dial makes of them (dial address, request
+	// target, Host header) against the values RFC 6455 section 3 gives
+	type uriCase struct {
+		uri, target, host, addr string // empty target: malformed
+	}
+	uris := []uriCase{
+		{"ws://example.com/path", "/path", "example.com", "example.com:80"},
+		{"ws://example.com", "/", "example.com", "example.com:80"},
+		{"ws://example.com/", "/", "example.com", "example.com:80"},
+		{"ws://example.com:8080/a/b?x=1&y=2", "/a/b?x=1&y=2", "example.com:8080", "example.com:8080"},
+		{"ws://example.com?q=1", "/?q=1", "example.com", "example.com:80"},
+		{"ws://example.com/?", "/", "example.com", "example.com:80"},
+		{"ws://example.com/a?b?c/d", "/a?b?c/d", "example.com", "example.com:80"},
+		{"ws://[::1]:9000/p", "/p", "[::1]:9000", "[::1]:9000"},
+		{"ws://[::1]/p", "/p", "[::1]", "[::1]:80"},
+		{"ws://example.com:80/%41%2f?%20", "/%41%2f?%20", "example.com:80", "example.com:80"},
+		{"ws://user:pw@example.com/", "", "", ""},
+		{"http://example.com/", "", "", ""},
+		{"example.com/ws", "", "", ""},
+		{"WS://example.com/", "", "", ""},
+		{"ws:/example.com/", "", "", ""},
+	}
+	for i := 0; i < c.N(200, 4000); i++ { // generated variants for the model comparison
+		u := []string{"ws://", "wss://", "ws:/", "w", ""}[r.Pick(0, 0, 0, 1, 1, 2, 3, 4)]
+		for n := r.Intn(6); n > 0; n-- {
+			u += []string{"a", "example.com", ":", "80", "/", "?", "@", "[", "]", "::1", "#", "x=1", "%2f", "//"}[r.Intn(14)]
+		}
+		uris = append(uris, uriCase{uri: u, target: "?"})
+	}
+	for _, uc := range uris {
+		sch, host, target, hp, hnp, err := ws.VerifParseURL(uc.uri)
+		impl := "err"
+		if err == nil {
+			impl = fmt.Sprintf("ok %s %s %s %s %s", hsHex(sch), hsHex(host), hsHex(target), hsHex(hp), hsHex(hnp))
+		}
+		c.Eq("hs.url", uc.uri, impl, c.O.Call("hs.url", hsHex(uc.uri)))
+		if uc.target == "?" {
+			c.Case("hs/url/generated", uc.uri, true)
+			continue
+		}
+		var addr string
+		var sc *hsScript
+		d := ws.Dialer{HandshakeTimeout: time.Second, NetDial: func(network, a string) (net.Conn, error) {
+			addr = a
+			sc = &hsScript{respond: func([]byte) []byte { return []byte("HTTP/1.1 400 Bad Request\r\nContent-Length: 0\r\n\r\n") }}
+			return sc, nil
+		}}
+		res := h.Safe(func() string {
+			_, _, err := d.Dial(uc.uri, nil)
+			if sc == nil {
+				return "malformed: " + fmt.Sprint(err)
+			}
+			first, _, hd, ok := hsParseBlock(sc.req.Bytes())
+			if !ok || len(hd["Host"]) != 1 {
+				return "request not well-formed"
+			}
+			return fmt.Sprintf("%s | Host: %s | dial %s", first, hd["Host"][0], addr)
+		})
+		want := "malformed: malformed ws or wss URL"
+		if uc.target != "" {
+			want = fmt.Sprintf("GET %s HTTP/1.1 | Host: %s | dial %s", uc.target, uc.host, uc.addr)
+		}
+		c.Hold(res == want, "handshake.request_target_and_host", "Dial "+uc.uri, res, want)
+		c.Case("hs/url/dial", uc.uri, true)
+	}
+
 	// 8. Dialer.Dial: the request it writes and its verdict on crafted responses
 	type respVariant struct {
 		status                 int
